@@ -26,10 +26,19 @@ def sh(cmd, **kw):
 def main():
     wt, var = sys.argv[1], sys.argv[2]
     checks = ALL
+    outdir, suffix = "_out", ""
     for a in sys.argv[3:]:
         if a.startswith("--checks"):
             checks = a.split("=", 1)[1].split(",")
-    out = os.path.join(wt, "_out")
+        if a.startswith("--out="):
+            outdir = a.split("=", 1)[1]
+        if a.startswith("--suffix="):
+            suffix = a.split("=", 1)[1]
+    out = os.path.join(wt, outdir)
+    # patches are applied in a worktree of our own (the agents may still be working in theirs)
+    src_wt = wt
+    wt = os.environ.get("SEED_WT", "/tmp/seedtest_wt")
+    sh("git -C %s checkout -q -- . ; git -C %s checkout -q --detach main" % (wt, wt))
     meta = json.load(open(os.path.join(out, var + "_meta.json")))
     pid = meta["property"]
     patch = os.path.join(out, var + ".diff")
@@ -42,7 +51,7 @@ def main():
         print("patch does not apply:", ap.stderr)
         return 3
     r1 = subprocess.run(["/venv/bin/python", demo], env=env, capture_output=True, text=True, cwd=wt, timeout=600)
-    base = sh("/tmp/run_baseline.sh %s" % wt)
+    base = sh("%s/tools/run_baseline_wt.sh %s" % (VERIF, wt))
     confirmed = r0.returncode == 0 and r1.returncode == 1 and "79/79" in base.stdout
     print("%s-%s: demo pristine rc=%d, patched rc=%d, %s -> %s" % (pid, var, r0.returncode, r1.returncode, base.stdout.strip().splitlines()[0] if base.stdout.strip() else "no baseline output", "CONFIRMED" if confirmed else "NOT CONFIRMED"))
     results = {}
@@ -69,17 +78,25 @@ def main():
             print("   %s thorough rc=%d %s" % (pid, results[pid + ":thorough"]["rc"], results[pid + ":thorough"]["first"][:160]))
     sh("git -C %s checkout -q -- ." % wt)
     if confirmed:
-        dest = os.path.join(VERIF, "seeded", "%s-%s" % (pid, var))
+        dest = os.path.join(VERIF, "seeded", "%s-%s%s" % (pid, var, suffix))
         os.makedirs(dest, exist_ok=True)
         shutil.copy(patch, os.path.join(dest, "patch.diff"))
         shutil.copy(demo, os.path.join(dest, "demo.py"))
+        old = {}
+        if os.path.exists(os.path.join(dest, "meta.json")):
+            try:
+                old = json.load(open(os.path.join(dest, "meta.json"))).get("checks", {})
+            except Exception:
+                old = {}
+        old.update(results)
+        results = old
         caught = sorted(k for k, v in results.items() if v["rc"] == 1)
         meta.update(
             {
                 "breaks": pid,
                 "origin": "sub-agent given only the text of the property and a scratch worktree",
                 "confirmed": {"demo_exit_pristine": r0.returncode, "demo_exit_patched": r1.returncode, "baseline_with_patch": base.stdout.strip().splitlines()[0]},
-                "ran": "tools/seed_process.py: demo on pristine and patched worktree, /tmp/run_baseline.sh (79 baseline tests), then ./check <id> quick for every property with HGMON_REPO=<patched worktree>",
+                "ran": "tools/seed_process.py: demo on pristine and patched worktree, %s/tools/run_baseline_wt.sh (79 baseline tests), then ./check <id> quick for every property with HGMON_REPO=<patched worktree>",
                 "checks": results,
                 "caught_by": caught,
                 "caught_by_own_check": any(k.startswith(pid + ":") for k in caught),
